@@ -90,6 +90,54 @@ func BulkAtomics(seed int64, g, n int) []map[string]interface{} {
 	}
 	out = append(out, bulkLine("ticket", "init", 0, "ops", g*n, "distinct", len(seen), "final", int(t.Get())))
 
+	// Add and Reset mixed: nothing may fall between a Reset's read and its write
+	dr := &atomic.Counter{}
+	added := make([]int64, g)
+	drained := make([]int64, g)
+	par(g, func(i int, r *rand.Rand) {
+		for j := 0; j < n; j++ {
+			if r.Intn(4) == 0 {
+				drained[i] += dr.Reset()
+			} else {
+				v := int64(1 + r.Intn(9))
+				dr.Add(v)
+				added[i] += v
+			}
+		}
+	}, seed+7)
+	var sa, sd int64
+	for i := range added {
+		sa += added[i]
+		sd += drained[i]
+	}
+	out = append(out, bulkLine("drain", "sum", int(sa), "drained", int(sd), "final", int(dr.Get()), "ops", g*n))
+
+	// the flag as a test-and-set bit: all goroutines Set() an unset flag at the same instant, exactly one may see "was unset"
+	tf := &atomic.Flag{}
+	iters := n / 4
+	if iters < 50 {
+		iters = 50
+	}
+	wins := make([]int, g)
+	ph := &phaser{n: int32(g)}
+	par(g, func(i int, r *rand.Rand) {
+		for j := 0; j < iters; j++ {
+			ph.wait()
+			if !tf.Set() {
+				wins[i]++
+			}
+			ph.wait()
+			if i == 0 {
+				tf.Unset()
+			}
+		}
+	}, seed+8)
+	w := 0
+	for _, x := range wins {
+		w += x
+	}
+	out = append(out, bulkLine("tas", "iters", iters, "winners", w, "ops", g*iters))
+
 	f := &atomic.Flag{}
 	lastF := make([]interface{}, g)
 	par(g, func(i int, r *rand.Rand) {
@@ -204,8 +252,22 @@ func (e *GasEnv) BulkGas(seed int64, g, n int) (map[string]interface{}, error) {
 	if g > 14 {
 		g = 14
 	}
+	// every call is planned and measured beforehand, sequentially, on a fresh copy of its slot's account: a failure or a
+	// different charge in the concurrent phase below can then only come from the concurrency
+	plans := make([][]*gasCall, g)
+	for i := 0; i < g; i++ {
+		r := rand.New(rand.NewSource(seed*1000 + 500 + int64(i)))
+		for j := 0; j < n; j++ {
+			c := e.planCall(r, i)
+			res := execute(e.Calib, c, e.Tmpl[i].Clone(nil), e.SC[i].Clone(nil))
+			if res.charge < 0 {
+				return nil, fmt.Errorf("calibration of %s failed: %s", c.Fn, res.err)
+			}
+			c.M, c.N = int(res.charge/BaseUnit), int(res.charge%BaseUnit)
+			plans[i] = append(plans[i], c)
+		}
+	}
 	seen := make([]map[triple]bool, g)
-	errs := make([]error, g)
 	stop := make(chan struct{})
 	var bg sync.WaitGroup
 	bg.Add(2)
@@ -244,14 +306,7 @@ func (e *GasEnv) BulkGas(seed int64, g, n int) (map[string]interface{}, error) {
 	var mu sync.Mutex
 	par(g, func(i int, r *rand.Rand) {
 		seen[i] = map[triple]bool{}
-		for j := 0; j < n; j++ {
-			c := e.planCall(r, i)
-			res := execute(e.Calib, c, e.Tmpl[i].Clone(nil), e.SC[i].Clone(nil))
-			if res.charge < 0 {
-				errs[i] = fmt.Errorf("calibration of %s failed: %s", c.Fn, res.err)
-				return
-			}
-			c.M, c.N = int(res.charge/BaseUnit), int(res.charge%BaseUnit)
+		for _, c := range plans[i] {
 			if fn, err := e.Cont.Get(c.Fn); err == nil {
 				fn.IsActive()
 			}
@@ -259,17 +314,12 @@ func (e *GasEnv) BulkGas(seed int64, g, n int) (map[string]interface{}, error) {
 			seen[i][triple{int(got.charge), c.M, c.N}] = true
 		}
 		mu.Lock()
-		execs += n
+		execs += len(plans[i])
 		mu.Unlock()
 	}, seed)
 	close(stop)
 	bg.Wait()
 	e.CurK, e.Epoch, e.CurFlag = lastK, lastEp, lastEp >= activation
-	for _, err := range errs {
-		if err != nil {
-			return nil, err
-		}
-	}
 	all := map[triple]bool{}
 	for _, s := range seen {
 		for t := range s {
